@@ -51,7 +51,7 @@ func genC16(rng *rand.Rand, n int, emit func(Case), dist map[string]int) {
 	files := map[string]string{
 		"root/index.html": "MARK-ROOT-INDEX", "root/file.txt": "MARK-ROOT-FILE", "root/sub/index.html": "MARK-SUB-INDEX",
 		"root/sub/f.txt": "MARK-SUB-F", "root/sub/deep/x.txt": "MARK-DEEP-X", "root/assets/a.css": "MARK-ASSET",
-		"secret.txt": "SECRET-OUTSIDE-1", "other/secret2.txt": "SECRET-OUTSIDE-2", "rootx/secret3.txt": "SECRET-OUTSIDE-3",
+		"index.html": "SECRET-OUTSIDE-4-index-next-to-the-root", "secret.txt": "SECRET-OUTSIDE-1", "other/secret2.txt": "SECRET-OUTSIDE-2", "rootx/secret3.txt": "SECRET-OUTSIDE-3",
 	}
 	for p, c := range files {
 		full := filepath.Join(base, filepath.FromSlash(p))
@@ -80,6 +80,13 @@ func genC16(rng *rand.Rand, n int, emit func(Case), dist map[string]int) {
 		{"Static middleware, custom http.FileSystem + Root=root", mk(func(e *echo.Echo) {
 			e.Use(middleware.StaticWithConfig(middleware.StaticConfig{Root: "root", Filesystem: c16HTTPFS{http.Dir(base), &opened}}))
 		}), "", 1},
+		{"Static middleware HTML5, custom http.FileSystem above Root=root", mk(func(e *echo.Echo) {
+			e.Use(middleware.StaticWithConfig(middleware.StaticConfig{Root: "root", Filesystem: http.Dir(base), HTML5: true}))
+		}), "", 0},
+		{"Static middleware Root=abs next to a wildcard route /api/*", mk(func(e *echo.Echo) {
+			e.Use(middleware.Static(root))
+			e.GET("/api/*", func(c echo.Context) error { return c.String(http.StatusOK, "api") })
+		}), "", 0},
 		{"Static middleware HTML5+Browse", mk(func(e *echo.Echo) {
 			e.Use(middleware.StaticWithConfig(middleware.StaticConfig{Root: root, HTML5: true, Browse: true}))
 		}), "", 0},
@@ -168,6 +175,9 @@ func genC16(rng *rand.Rand, n int, emit func(Case), dist map[string]int) {
 		if rng.Intn(5) == 0 { // a clean path of an existing file
 			rel := []string{"/file.txt", "/sub/f.txt", "/sub/deep/x.txt", "/index.html", "/assets/a.css", "/secret2.txt", "/secret.txt", "/secret3.txt", "/f.txt"}[rng.Intn(9)]
 			target = cf.prefix + rel
+		}
+		if strings.Contains(cf.name, "wildcard route /api/*") && rng.Intn(3) == 0 {
+			target = "/api/ping" // served by the route; the NEXT request on the recycled context must not inherit its path
 		}
 		if strings.HasPrefix(cf.name, "File route") && rng.Intn(3) == 0 {
 			target = cf.prefix // the route itself: exactly its one file
